@@ -106,3 +106,38 @@ c.ensures("result._group is self", name="group", tags="C14")
 c.ensures("result._e == spec.ae(self, seed)", name="val", tags="C14 C03")
 c.ensures("spec.insub(self, result._e)", name="member", tags="C14 C04 C18")
 c.canary("result._e == spec.powmod(h, r + 1, self.p)")
+
+# ---- the element API of integer groups refines EltSpec ---------------------------------------------------------------
+REG.alias("groups._Element", _g="_group", _v="_e")
+REG.alias(G, )
+E = "groups._Element"
+c = REG.contract(E + ".add")
+c.params(self="obj:" + E, other="obj:%s;_group=$self._group" % E).returns("obj:" + E).pure().refines("EltSpec.add")
+c.ensures("result._group is self._group", name="group", tags="C13")
+c.ensures("result._e == (self._e * other._e) % self._group.p", name="val", tags="C13")
+
+c = REG.contract(E + ".scalarmult")
+c.params(self="obj:" + E, s="int").returns("obj:" + E).pure().refines("EltSpec.scalarmult")
+c.ensures("result._group is self._group", name="group", tags="C13")
+c.ensures("result._e == spec.powmod(self._e, s % self._group.q, self._group.p)", name="val", tags="C13")
+
+c = REG.contract(E + ".to_bytes")
+c.params(self="obj:" + E).returns("bytes").pure().refines("EltSpec.to_bytes")
+c.ensures("spec.be(result) == self._e and len(result) == self._group.element_size_bytes", name="val", tags="C13 C15")
+
+c = REG.contract(G + ".random_scalar")
+c.params(self="obj:" + G, entropy_f="entropy").returns("int").pure().refines("GroupSpec.random_scalar")
+c.ensures("0 <= result and result < self.q", name="range", tags="C11 C04")
+c.ensures("result == spec.rr(self.q, entropy_f, 0)", name="rejection-sampling", tags="C11 C03")
+c.ensures("spec.entropy_sizes_all(self.scalar_size_bytes)", name="block-size", tags="C11")
+
+c = REG.contract(G + ".__init__")
+c.params(self="obj:" + G, p="int", q="int", g="int").returns("none").setup("fresh_self")
+# the constructor calls two methods on the partially initialised object: they are executed inline here
+c.inline_callees = {G + ".password_to_scalar", G + ".scalar_to_bytes"}
+c.requires("q >= 1 and p >= 1 and spec.size_bytes(q) + 16 <= 8160")
+c.raises("AssertionError", "spec.powmod(g, q, p) != 1", name="generator-order", tags="C18")
+c.ensures("self.p == p and self.q == q and self.Base._e == g and self.Zero._e == 1", name="fields", tags="C18 C16")
+c.ensures("self.Base._group is self and self.Zero._group is self", name="elements-of-self", tags="C18")
+c.ensures("self.scalar_size_bytes == spec.size_bytes(q) and self.element_size_bytes == spec.size_bytes(p) and self.element_size_bits == spec.size_bits(p)", name="sizes", tags="C18 C15")
+c.ensures("spec.powmod(g, q, p) == 1", name="order-divides-q", tags="C18")
